@@ -221,6 +221,9 @@ def draw_call(rng, cmd, spec):
                 pos.append(q(draw_value(rng, dest, conv)))
             elif nargs == "*":
                 var = [q(draw_value(rng, dest, conv)) for _ in range(rng.choice([0, 1, 2, 3]))]
+                if var and rng.random() < 0.4:
+                    # a repeated value is passed on twice, like every other (cancel 0 0 = two requests)
+                    var.insert(rng.randrange(len(var) + 1), rng.choice(var))
             elif nargs == "?":
                 if rng.random() < 0.6:
                     pos.append(q(draw_value(rng, dest, conv)))
